@@ -16,8 +16,8 @@ CONTENT = {
     "trig2": b"# a\n#  b\n",                # MD019 on line 2 (where a leaked pragma of another file would bite)
     # documents that walk many rules through their states (runs of blank lines, lists, fences, quotes, repeated headings); the second
     # one starts where a rule left half-way through the first would notice (blank lines first, then list items and headings)
-    "stateful": b"# a\n\n\n- x\n\n```\ncode\n```\n\n\n> q\n\n## a\n",
-    "stateful2": b"\n\n- y\n* z\n\n## a\n\n## a\ntext\n",
+    "stateful": b"# a\n\n\n- x\n  - n\n    1. o\n\n```\ncode\n```\n\n\n> q\n> - r\n\n## a\n",
+    "stateful2": b"\n\n- y\n  - w\n    - v\n* z\n\n1. k\n   - j\n\n## a\n\n## a\ntext\n",
     "perr": b"# a\n\nPLUGINFAIL\n",
     "terr": b"---\ntest: assert\n---\n",
     "decode": b"\xff\xfe# a\n",
@@ -121,7 +121,7 @@ def run(ctx):
     # ... the same with documents that leave rules half-way through their states at the point of the fault
     base3b = [("f1.md", "stateful"), ("f2.md", "stateful2"), ("f3.md", "stateful")]
     for pos in (1, 2):
-        for cb, nth in [("token", n) for n in range(1, 31)] + [("line", n) for n in (1, 3, 4, 6, 9)]:
+        for cb, nth in [("token", n) for n in range(1, 56)] + [("line", n) for n in (1, 3, 4, 6, 9, 12)]:
             fenv = {"PV_FAULT": json.dumps({"cb": cb, "file": f"f{pos}.md", "nth": nth}), "PV_FAULT_FIX": "1", "PV_FAULT_LEVEL": "1", "PV_FAULT_ID": "zzx999"}
             for mode in ("scan", "fix"):
                 pos_cases.append((base3b, mode, True, fenv, pos))
@@ -256,7 +256,7 @@ def run(ctx):
     ]
     return ctx.finish(
         level="proof",
-        rule="callback-position faults also on two documents that walk the rules through their states (blank-line runs, lists, fences, quotes, repeated headings), 30 token and 5 line positions; outcome vectors of <=3 files over {clean, fixable(2 passes), trig2, plugin error, parser error, parser crash after a pragma} (+undecodable, <=2) x scan/fix x continue-on-error, each compared with the run without the failing files; "
+        rule="callback-position faults also on two documents that walk the rules through their states (blank-line runs, lists, fences, quotes, repeated headings), 55 token and 6 line positions; outcome vectors of <=3 files over {clean, fixable(2 passes), trig2, plugin error, parser error, parser crash after a pragma} (+undecodable, <=2) x scan/fix x continue-on-error, each compared with the run without the failing files; "
              "a fault at every callback invocation (start, tokens 1-8, lines 1-4, completion) of each of 3 file positions x scan/fix x coe; process death at 9 points of the write-back for 2 documents; quick = all vectors <=2 + 70 seed-selected 3-vectors; non-trivial = every case; distinct by input",
         assumptions=["a crash cannot remove the sibling/temporary file it was writing: residue is judged only for runs that end normally or with a reported error",
                      "'completely fixed' is the content a fix of that file alone produces"],
